@@ -403,3 +403,71 @@ Theorem C18_keys_only_compared : forall (val : Type) (f : key -> key) (c : nat) 
   state_of c (map (ren_op val f) ops) = ren_state val f (state_of c ops).
 Proof. exact keys_only_compared. Qed.
 Print Assumptions C18_keys_only_compared.
+
+(** ** ALL entry points as calls of the interleaving semantics (Lfu/LfuConcGModel.v): get and
+    set(key, report_type, value) under the lock ([call_impl] = [glocked (call_body o)]), and the
+    LOCK-FREE [key in cache] (one dict lookup, no acquire) - over the heap with report-type
+    contents.  [glog] logs the locking calls at their acquisitions; [gouts] / [gobs] collect
+    the results of the locking / lock-free calls of a thread. *)
+From DD Require Import Lfu.LfuConcGModel Lfu.LfuConcGLin Lfu.LfuConcDict Lfu.LfuConcGLfu.
+
+Theorem C18_gconc_every_state : forall (c : nat) (progs : list (list call)) (sch : list tid) (cfg : gconfig content call cres),
+  1 <= c -> gexec is_reader call_impl (ginit cres (hempty c) progs) sch = Some cfg ->
+  gany_crashed cfg = false /\
+  exists Ld hs res,
+    glrun call_step (hempty c) Ld = Some (hs, res) /\
+    heap_repr hs (rstate_of c (rops_of Ld)) /\
+    match glock cfg with
+    | None => glog cfg = Ld /\ gheap cfg = hs
+    | Some t => exists th o p,
+        nth_error (gthreads cfg) t = Some th /\ is_reader o = false /\
+        gcur th = Some (o, gembed p (@gfin content cres)) /\
+        glog cfg = Ld ++ [(t, o)] /\ interp p (gheap cfg) = call_step hs o
+    end.
+Proof. exact gconc_every_state. Qed.
+Print Assumptions C18_gconc_every_state.
+
+(** linearizability of get / set(key, report_type, value) in the presence of lock-free readers *)
+Theorem C18_gconc_linearizable : forall (c : nat) (progs : list (list call)) (sch : list tid) (cfg : gconfig content call cres),
+  1 <= c -> gexec is_reader call_impl (ginit cres (hempty c) progs) sch = Some cfg -> gall_done cfg = true ->
+  exists res,
+    glrun call_step (hempty c) (glog cfg) = Some (gheap cfg, res) /\
+    Forall (fun x => fst x < length progs) (glog cfg) /\
+    (forall t th P, nth_error (gthreads cfg) t = Some th -> nth_error progs t = Some P ->
+       proj t (glog cfg) = lk_ops is_reader P /\ gouts th = proj t res /\ gcrashed th = false) /\
+    heap_repr (gheap cfg) (rstate_of c (rops_of (glog cfg))).
+Proof. exact gconc_linearizable. Qed.
+Print Assumptions C18_gconc_linearizable.
+
+(** what ONE lock-free [key in cache] observes.  Lock free at that moment: exactly the key
+    table of the state after the logged calls ... *)
+Theorem C18_contains_quiescent : forall (c : nat) (progs : list (list call)) (sch : list tid) (cfg : gconfig content call cres) (k : key),
+  1 <= c -> gexec is_reader call_impl (ginit cres (hempty c) progs) sch = Some cfg -> glock cfg = None ->
+  (match lookup k (dict (gheap cfg)) with Some _ => true | None => false end) =
+  contains (rstate_of c (rops_of (glog cfg))) k.
+Proof. exact gconc_contains_quiescent. Qed.
+Print Assumptions C18_contains_quiescent.
+
+(** ... lock held (thread t is inside its critical section on the call logged last): for every
+    key, the key is seen as in the state BEFORE that call or as in the state AFTER it *)
+Theorem C18_contains_midsection : forall (c : nat) (progs : list (list call)) (sch : list tid) (cfg : gconfig content call cres) (t : tid),
+  1 <= c -> gexec is_reader call_impl (ginit cres (hempty c) progs) sch = Some cfg -> glock cfg = Some t ->
+  exists Ld o, glog cfg = Ld ++ [(t, o)] /\
+    forall q,
+      mem q (dict (gheap cfg)) = contains (rstate_of c (rops_of Ld)) q \/
+      mem q (dict (gheap cfg)) = contains (rstate_of c (rops_of (Ld ++ [(t, o)]))) q.
+Proof. exact gconc_contains_midsection. Qed.
+Print Assumptions C18_contains_midsection.
+
+(** ... but two lookups are not one snapshot, and lock-free lookups are NOT linearizable:
+    capacity 1, reader thread [set 1; 1 in c; 2 in c], writer [set 2]: the reader gets
+    False, False, which no sequential order respecting program order produces *)
+Theorem C18_contains_linearizable_refuted :
+  exists cfg,
+    gexec is_reader call_impl (ginit cres (hempty 1) nl_progs) nl_sched = Some cfg /\
+    gall_done cfg = true /\ gany_crashed cfg = false /\
+    option_map (@gobs content call cres) (nth_error (gthreads cfg) 1) = Some [XBool false; XBool false] /\
+    Forall (fun L => seq_reader_results L <> Some [XDone; XBool false; XBool false])
+           (merges (tagged 0 [CSet 2%Z None 20%Z]) (tagged 1 [CSet 1%Z None 10%Z; CContains 1%Z; CContains 2%Z])).
+Proof. exact contains_not_linearizable. Qed.
+Print Assumptions C18_contains_linearizable_refuted.
